@@ -232,7 +232,7 @@ pub fn spec(check: &str, tier: &str) -> Option<CheckSpec> {
             wall_cap: Duration::from_secs(if tier == "quick" { 60 } else { 1800 }),
             jobs: crate::seqcheck::jobs(tier),
             self_checks: vec![],
-            completed_level: if tier == "quick" { "depth 2, full boundary operand set (9 values)".to_string() } else { "depth 3 with 5 boundary operands + depth 2 with 9".to_string() },
+            completed_level: if tier == "quick" { "depth 2, full boundary operand set (9 values); long sequences of 4..15 modifications + inspecting suffixes".to_string() } else { "depth 3 with 5 boundary operands + depth 2 with 9; long sequences of 4..17 modifications + inspecting suffixes".to_string() },
             abort_is_violation: true,
         }),
         "C13" => {
@@ -253,7 +253,20 @@ pub fn spec(check: &str, tier: &str) -> Option<CheckSpec> {
             progs.extend(pick(fam::stat_programs("quick"), if tier == "quick" { 24 } else { 300 }));
             let mut cfg = cfg.clone();
             cfg.iter_cap = if tier == "quick" { 500 } else { 2500 };
-            let mut js = jobs("C13", tier, progs, &cfg);
+            let mut js = jobs("C13", tier, progs.clone(), &cfg);
+            // the same with a preemption bound (the bound is part of what a checkpoint must carry)
+            let bounded: Vec<Program> = progs.iter().filter(|p| p.threads.len() >= 3 && p.objs.tls.is_empty()).cloned().collect();
+            for (bi, b) in [1usize, 2].iter().enumerate() {
+                let mut c2 = cfg.clone();
+                c2.preemption_bound = Some(*b);
+                let step = if tier == "quick" { 3 } else { 1 };
+                let sel: Vec<Program> = bounded.iter().skip(bi).step_by(step).cloned().collect();
+                let mut more = jobs("C13", tier, sel, &c2);
+                for j in more.iter_mut() {
+                    j.id = format!("{}-pb{}", j.id, b);
+                }
+                js.extend(more);
+            }
             for j in js.iter_mut() {
                 j.extra = serde_json::json!({"intervals": if tier == "quick" { vec![1, 3] } else { vec![1, 2, 3, 7] }, "stop_stride": stride});
             }
